@@ -85,7 +85,7 @@ int cmd_worker(const std::map<std::string, std::string>& a) {
     if (only_hash && (hash_mod <= 0 || idx % hash_mod != 0)) continue;
     begin_run(idx);
     CaseBox cb = gen_case(prop, part, part.compare(0, 4, "tmpl") == 0 ? part : tier, seed, idx);
-    arm_watchdog(prop == "C12" ? 6 : 20, 300);
+    arm_watchdog(prop == "C12" ? 6 : 20, 120);
     Outcome o = exec_case(cb, false, &stats);
     disarm_watchdog();
     ++runs;
@@ -96,9 +96,17 @@ int cmd_worker(const std::map<std::string, std::string>& a) {
     if (!o.violations.empty()) {
       ++violating;
       // Determinism gate, part 1: the same case again in this process must behave identically.
-      begin_run(idx);
-      CaseBox again = cb;
-      Outcome o2 = exec_case(again, false, nullptr);
+      Outcome o2;
+      if (o.poisoned) {
+        // Abandoned fibers may still hold library locks: nothing more can be executed in this process.
+        o2 = o;
+      } else {
+        begin_run(idx);
+        CaseBox again = cb;
+        arm_watchdog(prop == "C12" ? 6 : 20, 120);
+        o2 = exec_case(again, false, nullptr);
+        disarm_watchdog();
+      }
       J j = J::obj();
       j.set("run", idx);
       J vs = J::arr();
@@ -159,6 +167,7 @@ int cmd_replay(const std::string& file, const std::map<std::string, std::string>
     o = exec_case(c2, want_log, nullptr);
     disarm_watchdog();
     if (r == 0) h0 = o.log_hash;
+    if (o.poisoned) break;   // abandoned fibers may hold library locks: never execute again in this process
   }
   J out = J::obj();
   J vs = J::arr();
